@@ -121,7 +121,7 @@ def compare_run(model, impl, names, default_bg="white"):
     else:
         for c, f in zip(cards, model["fixed"]):
             codes = c.get("codes", [])
-            if c.get("selector") != f["selector"] or len(codes) != 2 or codes[0] != f["original"] or not same_value(f["tuned"], codes[1]) \
+            if c.get("selector") != f["selector"] or len(codes) != 2 or not same_value(f["original"], codes[0]) or not same_value(f["tuned"], codes[1]) \
                     or c.get("badges") != [f["ol"], f["nl"]]:
                 diffs.append("report card %r: report %r / %r, model %r" % (f["selector"], codes, c.get("badges"), f))
                 break
@@ -145,3 +145,36 @@ def compare_run(model, impl, names, default_bg="white"):
                 if d:
                     diffs.append("%s -> %s differs from the model's tree at %s" % (name, outname, d))
     return diffs
+
+
+def all_diffs(a_nodes, b_nodes, path=()):
+    """every difference between two abstract trees: list of (kind, path, selector, detail)"""
+    out = []
+    if len(a_nodes) != len(b_nodes):
+        return [("structure", path, None, "%d nodes vs %d" % (len(a_nodes), len(b_nodes)))]
+    for i, (a, b) in enumerate(zip(a_nodes, b_nodes)):
+        p = path + (i,)
+        if a[0] != b[0]:
+            out.append(("structure", p, None, "node kind %s vs %s" % (a[0], b[0]))); continue
+        if a[0] == "R":
+            if a[1] != b[1]:
+                out.append(("selector", p, a[1], b[1]))
+            if len(a[2]) != len(b[2]):
+                out.append(("structure", p, a[1], "%d items vs %d" % (len(a[2]), len(b[2])))); continue
+            for j, (x, y) in enumerate(zip(a[2], b[2])):
+                if x[0] != y[0]:
+                    out.append(("structure", p, a[1], "item %d kind" % j))
+                elif x[0] == "D":
+                    if x[1] != y[1] or x[4] != y[4]:
+                        out.append(("declaration", p, a[1], (x[1], y[1], x[4], y[4])))
+                    elif x[3].strip() != y[3].strip():
+                        out.append(("value", p, a[1], (x[2], x[1], x[3].strip(), y[3].strip())))
+                elif x[1] != y[1]:
+                    out.append(("other", p, a[1], (x[1][:60], y[1][:60])))
+        elif a[0] == "A":
+            if a[1] != b[1] or a[2].strip() != b[2].strip():
+                out.append(("at-rule", p, a[1], (a[2], b[2])))
+            out += all_diffs(a[3], b[3], p)
+        elif a[1] != b[1]:
+            out.append(("other", p, None, (a[1][:60], b[1][:60])))
+    return out
